@@ -203,7 +203,7 @@ def bucket_dict_design(c: Ctx, u: Unit, fn: ast.AST, self_: str) -> bool:
         v = U(d.value)
         if f'len({self_}.event_history) - {self_}.max_history_size' in v:
             c.ok(where(u, d), f'{U(d.targets[0])} is len(history) - max_history_size (clamped at 0)')
-    dels = [w for w in c.cg.writes[u.key] if w.attr == 'event_history' and w.how == 'del']
+    dels = [w for w in c.cg.writes[u.key] if w.attr == 'event_history' and w.how in ('del', 'pop')]
     if dels:
         c.ok(where(u, dels[0].node), 'the selected ids are deleted from event_history')
     else:
@@ -435,7 +435,7 @@ def c13_2(c: Ctx) -> None:
             c.ok(where(u, e), f'{src} evicted only while {cnt} > 0')
         else:
             c.fail(u, f'{src} eviction not guarded by {cnt} > 0', f'{src} events are evicted although enough completed events were removed', node=e)
-    dels = [w for w in c.cg.writes[u.key] if w.attr == 'event_history' and w.how == 'del']
+    dels = [w for w in c.cg.writes[u.key] if w.attr == 'event_history' and w.how in ('del', 'pop')]
     if dels:
         c.ok(where(u, dels[0].node), 'the selected ids are deleted from event_history')
     else:
